@@ -1,1 +1,218 @@
-From PsdV Require Import Base.Prelude Blend.Num Blend.Model.
+(* C12 - blend functions are total, bounded in [0,1], match their published formulas; documented identities.
+   Model: Blend/Model.v, ONE text over the scalar interface [num]; [f NR] is the instance at the Coq reals (theorems),
+   [f NQ] the instance at exact rationals (what the correspondence check runs against numpy).
+   Spec: Blend/Spec.v (PDF 1.7 11.3.5 / W3C compositing / Adobe).  [unit x] is 0 <= x <= 1.
+   Totality is by construction (Gallina functions); purity is an aliasing fact about numpy arrays, observed by the
+   harness, not expressible here.  Axioms reached: those of the standard library's real numbers (see Print
+   Assumptions below): ClassicalDedekindReals.sig_forall_dec, sig_not_dec, FunctionalExtensionality.functional_extensionality_dep. *)
+From Coq Require Import QArith Reals Lra.
+From PsdV Require Import Blend.Num Blend.Model Blend.Spec Blend.ProofsR Blend.ProofsNS Blend.Refine Blend.RefineNS.
+Open Scope R_scope.
+
+(* ================================================================= separable modes: range *)
+Theorem range_every_separable_mode : forall (m : sep_mode) (cb cs : R),
+  unit cb -> unit cs -> unit (blend_sep NR m cb cs).
+Proof. exact range_sep. Qed.
+Print Assumptions range_every_separable_mode.
+Example unit_inhabited : unit (1/2) /\ unit 0 /\ unit 1.
+Proof. unfold unit. lra. Qed.
+
+(* the same on the executable instance (soft light excepted: its rational sqrt is a bracket, see below) *)
+Theorem range_every_separable_mode_exec : forall (m : sep_mode) (cb cs : Q),
+  m <> SoftLight -> (0 <= cb <= 1)%Q -> (0 <= cs <= 1)%Q -> (0 <= blend_sep NQ m cb cs <= 1)%Q.
+Proof. exact range_sep_Q. Qed.
+Print Assumptions range_every_separable_mode_exec.
+
+(* ================================================================= separable modes: published formulas *)
+Theorem formula_exact_modes : forall cb cs : R,
+  normal NR cb cs = s_normal cb cs /\ multiply NR cb cs = s_multiply cb cs /\ screen NR cb cs = s_screen cb cs /\
+  overlay NR cb cs = s_overlay cb cs /\ darken NR cb cs = s_darken cb cs /\ lighten NR cb cs = s_lighten cb cs /\
+  hard_light NR cb cs = s_hard_light cb cs /\ soft_light NR cb cs = s_soft_light cb cs /\
+  linear_dodge NR cb cs = s_linear_dodge cb cs /\ linear_burn NR cb cs = s_linear_burn cb cs /\
+  pin_light NR cb cs = s_pin_light cb cs /\ difference NR cb cs = s_difference cb cs /\
+  exclusion NR cb cs = s_exclusion cb cs /\ subtract NR cb cs = s_subtract cb cs.
+Proof.
+  intros. repeat split;
+    auto using formula_normal, formula_multiply, formula_screen, formula_overlay, formula_darken, formula_lighten,
+      formula_hard_light, formula_soft_light, formula_linear_dodge, formula_linear_burn, formula_pin_light,
+      formula_difference, formula_exclusion, formula_subtract.
+Qed.
+Print Assumptions formula_exact_modes.
+
+Theorem formula_linear_light_is_clip : forall cb cs : R,
+  unit cb -> unit cs -> linear_light NR cb cs = Rmax 0 (Rmin 1 (cb + 2 * cs - 1)).
+Proof. exact formula_linear_light. Qed.
+Print Assumptions formula_linear_light_is_clip.
+
+(* soft light: Adobe's variant exactly (above); NOT the W3C/PDF piecewise-D variant *)
+Theorem soft_light_is_not_w3c_refuted :
+  exists cb cs, unit cb /\ unit cs /\ soft_light NR cb cs - s_soft_light_w3c cb cs = 11/256.
+Proof. exact soft_light_w3c_refuted. Qed.
+Print Assumptions soft_light_is_not_w3c_refuted.
+
+(* regularised singular formulas: distance <= 1e-9 / (distance of the source from the singularity) *)
+Theorem formula_color_dodge_tol : forall cb cs : R, unit cb -> cs < 1 ->
+  (1 - cs) * Rabs (color_dodge NR cb cs - s_color_dodge cb cs) <= 1/1000000000.
+Proof. exact formula_color_dodge. Qed.
+Print Assumptions formula_color_dodge_tol.
+Theorem formula_color_dodge_white_source : forall cb : R, color_dodge NR cb 1 = s_color_dodge cb 1.
+Proof. exact formula_color_dodge_at_1. Qed.
+Print Assumptions formula_color_dodge_white_source.
+Theorem formula_color_burn_tol : forall cb cs : R, unit cb -> 0 < cs ->
+  cs * Rabs (color_burn NR cb cs - s_color_burn cb cs) <= 1/1000000000.
+Proof. exact formula_color_burn. Qed.
+Print Assumptions formula_color_burn_tol.
+Theorem formula_color_burn_black_source : forall cb : R, color_burn NR cb 0 = s_color_burn cb 0.
+Proof. exact formula_color_burn_at_0. Qed.
+Print Assumptions formula_color_burn_black_source.
+Theorem formula_divide_tol : forall cb cs : R, unit cb -> 0 < cs ->
+  cs * Rabs (divide NR cb cs - s_divide cb cs) <= 1/1000000000.
+Proof. exact formula_divide. Qed.
+Print Assumptions formula_divide_tol.
+Theorem formula_vivid_light_tol : forall cb cs : R, unit cb ->
+  (0 < cs <= 1/2 -> (2 * cs) * Rabs (vivid_light NR cb cs - s_vivid_light cb cs) <= 1/1000000000) /\
+  (1/2 < cs < 1 -> (2 - 2 * cs) * Rabs (vivid_light NR cb cs - s_vivid_light cb cs) <= 1/1000000000) /\
+  vivid_light NR cb 0 = s_vivid_light cb 0 /\ vivid_light NR cb 1 = s_vivid_light cb 1.
+Proof.
+  intros cb cs Hb. split; [|split].
+  - apply formula_vivid_light_burn. exact Hb.
+  - apply formula_vivid_light_dodge. exact Hb.
+  - apply formula_vivid_light_ends.
+Qed.
+Print Assumptions formula_vivid_light_tol.
+Example tol_hypotheses_inhabited : unit (1/3) /\ (1/2 < 3/4 < 1) /\ (0 < 1/4 <= 1/2).
+Proof. unfold unit. lra. Qed.
+
+(* hard mix: Adobe's threshold formula away from the threshold; on the line Cb + Cs = 1 the 0.999999 factor flips it *)
+Theorem formula_hard_mix_off_threshold : forall cb cs : R, unit cb -> unit cs ->
+  cb + cs < 1 \/ 1 + 1/1000000 <= cb + cs -> hard_mix NR cb cs = s_hard_mix cb cs.
+Proof. exact formula_hard_mix. Qed.
+Print Assumptions formula_hard_mix_off_threshold.
+Theorem hard_mix_on_threshold_is_refuted :
+  exists cb cs, unit cb /\ unit cs /\ cb + cs = 1 /\ hard_mix NR cb cs = 0 /\ s_hard_mix cb cs = 1.
+Proof. exact hard_mix_on_threshold_refuted. Qed.
+Print Assumptions hard_mix_on_threshold_is_refuted.
+Example hard_mix_guard_inhabited : unit (1/4) /\ unit (1/4) /\ (1/4 + 1/4 < 1 \/ 1 + 1/1000000 <= 1/4 + 1/4).
+Proof. unfold unit. lra. Qed.
+
+(* ================================================================= documented identities *)
+Theorem identities : forall b s x : R,
+  normal NR b s = s /\ multiply NR b 1 = b /\ screen NR b 0 = b /\ darken NR x x = x /\ lighten NR x x = x /\
+  overlay NR b s = hard_light NR s b /\ dissolve NR b s = s.
+Proof.
+  intros. repeat split; auto using id_normal, id_multiply_white, id_screen_black, id_darken_self, id_lighten_self,
+    id_overlay_hard_light, id_dissolve_normal.
+Qed.
+Print Assumptions identities.
+
+(* ================================================================= non-separable: helper laws *)
+Theorem lum_of_set_lum : forall (c : rgb NR) (l : R),
+  unit3 (map3 NR (fun v => v + (l - lum NR c)) c) -> lum NR (set_lum NR c l) = l.
+Proof. exact lum_set_lum. Qed.
+Print Assumptions lum_of_set_lum.
+Example lum_of_set_lum_hypothesis_inhabited :
+  unit3 (map3 NR (fun v => v + (1/2 - lum NR (1/4, 1/2, 3/4))) (1/4, 1/2, 3/4)).
+Proof. munfold. unfold unit3, unit. lra. Qed.
+
+Theorem sat_of_set_sat : forall (c : rgb NR) (s : R),
+  0 <= s -> mid3 NR c < max3 NR c -> sat NR (set_sat NR c s) = s.
+Proof. exact sat_set_sat. Qed.
+Print Assumptions sat_of_set_sat.
+Example sat_of_set_sat_hypothesis_inhabited : mid3 NR (1/4, 1/2, 3/4) < max3 NR (1/4, 1/2, 3/4).
+Proof. munfold. rcases; lra. Qed.
+Theorem sat_of_set_sat_two_maxima_refuted : exists c s, unit3 c /\ unit s /\ sat NR (set_sat NR c s) <> s.
+Proof. exact sat_set_sat_tie_refuted. Qed.
+Print Assumptions sat_of_set_sat_two_maxima_refuted.
+
+Theorem set_sat_matches_pdf : forall (c : rgb NR) (s : R), 0 <= s -> s_min3 c < s_max3 c ->
+  close3 (s_max3 c - s_min3 c) (s * (1 / 1000000000)) (set_sat NR c s) (s_set_sat c s).
+Proof. exact set_sat_close. Qed.
+Print Assumptions set_sat_matches_pdf.
+Theorem set_sat_of_grey : forall r s : R, set_sat NR (r, r, r) s = (0, 0, 0) /\ s_set_sat (r, r, r) s = (0, 0, 0).
+Proof. exact set_sat_grey. Qed.
+Print Assumptions set_sat_of_grey.
+
+Theorem clip_color_is_identity_in_range : forall c : rgb NR, unit3 c -> clip_color NR c = c.
+Proof. exact clip_color_id. Qed.
+Print Assumptions clip_color_is_identity_in_range.
+Theorem set_lum_matches_pdf_without_clipping : forall (c : rgb NR) (l : R),
+  unit3 (map3 NR (fun v => v + (l - lum NR c)) c) -> set_lum NR c l = s_set_lum c l.
+Proof. exact set_lum_is_spec_noclip. Qed.
+Print Assumptions set_lum_matches_pdf_without_clipping.
+
+(* ================================================================= non-separable modes, RGB path *)
+Theorem range_every_nonseparable_mode_rgb : forall (m : nonsep_mode) (cb cs : rgb NR),
+  unit3 cb -> unit3 cs -> unit3 (blend_rgb NR m cb cs).
+Proof. exact range_rgb. Qed.
+Print Assumptions range_every_nonseparable_mode_rgb.
+Theorem range_every_nonseparable_mode_rgb_exec : forall (m : nonsep_mode) (cb cs : rgb NQ),
+  unit3Q cb -> unit3Q cs -> unit3Q (blend_rgb NQ m cb cs).
+Proof. exact range_rgb_Q. Qed.
+Print Assumptions range_every_nonseparable_mode_rgb_exec.
+
+Theorem formula_darker_lighter_color : forall cb cs : rgb NR,
+  darker_color_rgb NR cb cs = s_darker_color cb cs /\ lighter_color_rgb NR cb cs = s_lighter_color cb cs.
+Proof. intros. split; [apply formula_darker_color | apply formula_lighter_color]. Qed.
+Print Assumptions formula_darker_lighter_color.
+Theorem formula_color_luminosity_without_clipping : forall cb cs : rgb NR,
+  (unit3 (map3 NR (fun v => v + (lum NR cb - lum NR cs)) cs) -> color_rgb NR cb cs = s_color cb cs) /\
+  (unit3 (map3 NR (fun v => v + (lum NR cs - lum NR cb)) cb) -> luminosity_rgb NR cb cs = s_luminosity cb cs).
+Proof. intros. split; [apply formula_color_noclip | apply formula_luminosity_noclip]. Qed.
+Print Assumptions formula_color_luminosity_without_clipping.
+(* hue / saturation / the clipping cases of color / luminosity: within tolerance of the PDF formula by the
+   oracle of the harness (partial here: set_sat_matches_pdf + set_lum_matches_pdf_without_clipping are the
+   proved parts; the composition through a clipping _clip_color with its 1e-9 is not proved) *)
+
+(* ================================================================= CMYK wrapper *)
+Theorem cmyk_K_is_always_the_source_K : forall (m : nonsep_mode) (cb cs : cmyk NR),
+  snd (blend_cmyk NR m cb cs) = snd cs.
+Proof. exact blend_cmyk_K_is_source. Qed.
+Print Assumptions cmyk_K_is_always_the_source_K.
+
+Theorem range_cmyk_is_refuted : exists m cb cs, unit4 cb /\ unit4 cs /\ ~ unit4 (blend_cmyk NR m cb cs).
+Proof. exact range_cmyk_refuted. Qed.
+Print Assumptions range_cmyk_is_refuted.
+(* the same witness on the executable instance, by computation: the cyan channel is -1/2 / (1/2 + 1e-9) *)
+Theorem range_cmyk_is_refuted_exec :
+  (fst (fst (fst (blend_cmyk NQ LighterColor (0, 0, 0, 0) (0, 0, 0, 1#2)))) < 0)%Q.
+Proof. vm_compute. reflexivity. Qed.
+Print Assumptions range_cmyk_is_refuted_exec.
+
+(* the exact class: a channel comes out negative iff the blended value is brighter than the source black allows *)
+Theorem cmyk_channel_negative_iff : forall k v : R, 0 <= k < 1 -> (cmy_chan k v < 0 <-> 1 - k < v).
+Proof. exact cmy_chan_negative_iff. Qed.
+Print Assumptions cmyk_channel_negative_iff.
+Theorem cmyk_channel_never_above_1 : forall k v : R, unit k -> 0 <= v -> cmy_chan k v <= 1.
+Proof. exact cmy_chan_le_1. Qed.
+Print Assumptions cmyk_channel_never_above_1.
+(* positive statement under the guard excluding that class *)
+Theorem range_cmyk_guarded : forall (f : rgb NR -> rgb NR -> rgb NR) (cb cs : cmyk NR),
+  unit (snd cs) -> unit3 (f (cmyk2rgb NR cb) (cmyk2rgb NR cs)) ->
+  le3 (f (cmyk2rgb NR cb) (cmyk2rgb NR cs)) (1 - snd cs) -> unit4 (wrap_cmyk NR f cb cs).
+Proof. exact wrap_cmyk_range. Qed.
+Print Assumptions range_cmyk_guarded.
+Theorem range_cmyk_source_K0 : forall (m : nonsep_mode) (cb cs : cmyk NR),
+  unit4 cb -> unit4 cs -> snd cs = 0 -> unit4 (blend_cmyk NR m cb cs).
+Proof. exact range_cmyk_K0. Qed.
+Print Assumptions range_cmyk_source_K0.
+Example range_cmyk_source_K0_hypotheses_inhabited :
+  unit4 (1/4, 1/2, 3/4, 1/2) /\ unit4 (1/2, 1/4, 1, 0) /\ snd (1/2, 1/4, 1, 0) = 0.
+Proof. unfold unit4, unit. cbn [snd]. repeat split; lra. Qed.
+
+(* ================================================================= the executable instance refines the real one *)
+Theorem exec_refines_real_separable : forall (m : sep_mode) (cb cs : Q), m <> SoftLight -> (0 <= cs <= 1)%Q ->
+  Q2R (blend_sep NQ m cb cs) = blend_sep NR m (Q2R cb) (Q2R cs).
+Proof. exact refine_sep. Qed.
+Print Assumptions exec_refines_real_separable.
+Theorem exec_soft_light_within_2p32 : forall cb cs : Q, (0 <= cb <= 1)%Q -> (0 <= cs <= 1)%Q ->
+  Rabs (Q2R (soft_light NQ cb cs) - soft_light NR (Q2R cb) (Q2R cs)) <= / IZR (2 ^ 32).
+Proof. exact refine_soft_light. Qed.
+Print Assumptions exec_soft_light_within_2p32.
+Theorem exec_refines_real_rgb : forall (m : nonsep_mode) (cb cs : rgb NQ),
+  Q2R3 (blend_rgb NQ m cb cs) = blend_rgb NR m (Q2R3 cb) (Q2R3 cs).
+Proof. exact refine_rgb. Qed.
+Print Assumptions exec_refines_real_rgb.
+Theorem exec_refines_real_cmyk : forall (m : nonsep_mode) (cb cs : cmyk NQ), Q2R (snd cs) <= 1 ->
+  Q2R4 (blend_cmyk NQ m cb cs) = blend_cmyk NR m (Q2R4 cb) (Q2R4 cs).
+Proof. exact refine_cmyk. Qed.
+Print Assumptions exec_refines_real_cmyk.
